@@ -212,6 +212,16 @@ def endpoint(repo, chk, on_write):
         p = Q.escapes(g, [e.dst], lambda n: n in remw, avoid_edge=lambda e2, e=e: deferred_T(e2) or contra(e)(e2) or (e2.src.kind == 'test' and e2.kind == 'F' and 'isWriting' in src(e2.src.ast)))
         chk.ob('d', on_write.ref, 'once the buffer has drained (and no close is pending) writer interest is removed', p is None and bool(remw),
                loc(on_write, e.src.ast), path=pat.path_lines(p) if p else None, discr='interest-removed')
+    # a server shares its channel (and the poller) with every other server left on the default channel: the `_write` readiness event of a connection reaches all of
+    # them, and only the owner may take its write interest away
+    if len(on_write.params) > 1 and not is_file and any('_clients' in src(w) for w in ast.walk(cls.node) if isinstance(w, ast.Attribute)):
+        sk = on_write.params[1]
+        own = pat.test_edge(lambda tt, pol: pat.fact_matches(pat.compare_fact(tt, pol), sk, ('in',), 'self._clients'))
+        for rn in remw:
+            q = pat.guarded_by(g, rn, own)
+            chk.ob('d', on_write.ref, 'writer interest is removed only for a connection of this server (the readiness event also reaches other servers on the channel: one '
+                                      'without a buffer for the socket must not conclude "drained")', q is None, loc(on_write, rn.ast),
+                   path=pat.path_lines(q) if q else None, discr='interest-removed-by-owner')
     for cn in closes:
         q = pat.guarded_by(g, cn, pat.test_edge(lambda tt, pol: buffer_fact(on_write, tt, pol, bufset) == 'empty'))
         chk.ob('c', on_write.ref, 'the drain path closes only when the buffer is empty', q is None, loc(on_write, cn.ast), discr='close-when-empty')
